@@ -44,7 +44,7 @@ Definition k2_show (a : ast) (derive : string) : string :=
   end.
 
 (* ---------- K1: front end (grammar, walker, indexes) ---------- *)
-From XdrModel Require Import Walk Grammar.
+From XdrModel Require Import Walk Grammar Source.
 
 Definition opt_eqb {A} (f : A -> A -> bool) (a b : option A) : bool :=
   match a, b with Some x, Some y => f x y | None, None => true | _, _ => false end.
@@ -154,6 +154,32 @@ Definition k1_one (text : string) (rt : option tree) (ra : real_ast) : N :=
 Definition k1_run (cases : list (N * string * option tree * real_ast)) : list (N * N) :=
   flat_map (fun c => match c with
                      | (i, text, rt, ra) => let k := k1_one text rt ra in
+                                            if (k =? 0)%N then [] else [(i, k)]
+                     end) cases.
+
+(* ---------- K5: the surface reading (Source) versus the parser and Ast::new ---------- *)
+
+(* 0 agree; 1 the text does not parse to one tree; 2 its tree, spans erased, is not tree_of ds;
+   3 ds fails the side conditions of the C12 theorems; 4 the real Ast is not the Ast of the
+   items ds declares; 5 panic site differs; 9 out of fuel *)
+Definition k5_one (text : string) (ds : list sdecl) (ra : real_ast) : N :=
+  if negb (forallb decl_okb ds) then 3%N else
+  match parse xdr_grammar (parse_fuel text) text with
+  | PFuel => 9%N
+  | POk [t] _ =>
+    if tree_eqb (erase t) (tree_of ds) then
+      match ebind (emapM item_of ds) (fun items => ast_of_root (NRoot (items ++ [NEOF]))), ra with
+      | EOk a, RAOk a' => if ast_eqb a a' then 0%N else 4%N
+      | EPanic w, RAPanic w' => if String.eqb w w' then 0%N else 5%N
+      | _, _ => 4%N
+      end
+    else 2%N
+  | _ => 1%N
+  end.
+
+Definition k5_run (cases : list (N * string * list sdecl * real_ast)) : list (N * N) :=
+  flat_map (fun c => match c with
+                     | (i, text, ds, ra) => let k := k5_one text ds ra in
                                             if (k =? 0)%N then [] else [(i, k)]
                      end) cases.
 
